@@ -119,6 +119,23 @@ func c04Compare(w *mc.W, kind string, cas any, k *hdkeychain.ExtendedKey, x *ref
 	if err != nil || addr.EncodeAddress() != wantAddr {
 		bad("derived-address-wrong", fmt.Sprintf("%v", err))
 	}
+	// the address for EVERY network in turn, on the same key object (the address depends on the network
+	// asked for, not on what was asked before: several networks share HD version bytes but not the
+	// address prefix), once forwards and once backwards
+	for pass := 0; pass < 2; pass++ {
+		for j := range ref.Nets {
+			n := ref.Nets[j]
+			if pass == 1 {
+				n = ref.Nets[len(ref.Nets)-1-j]
+			}
+			a, err := k.Address(netParams[n.Name])
+			want := ref.CashEncode(n.CashPrefix, 0, ref.Hash160(x.P.Compressed()))
+			if err != nil || a.EncodeAddress() != want {
+				bad("derived-address-wrong/for-another-network", fmt.Sprintf("Address(%s) = %v (%v), want %s", n.Name, a, err, want))
+				break
+			}
+		}
+	}
 	if x.Private {
 		nk, err := k.Neuter()
 		if err != nil || nk.String() != x.Neuter().String(rn) {
